@@ -303,8 +303,14 @@ type transformationKey struct {
 	// transaction phase and we would never have different string pointers with the same
 	// content, or more problematically same pointer for different content, as the strings
 	// will be alive throughout the phase.
-	argKey            *byte
-	argIndex          int
+	argKey   *byte
+	argIndex int
+	// argValue and argValueLen identify the value the transformations are applied to. The
+	// position of a value in a rule's target expansion (argIndex) depends on the rule's
+	// targets and on map iteration order, so key and index alone can name different values
+	// for two rules of the same phase; the value identity makes such a hit impossible.
+	argValue          *byte
+	argValueLen       int
 	argVariable       variables.RuleVariable
 	transformationsID int
 }
